@@ -192,7 +192,7 @@ KINDS = [
 REQUIRED_INTERNAL = {  # kind -> names that must be internal ("*" = every attribute)
     "function": (), "method": (), "type": ("mro",), "code": "*", "traceback": "*", "frame": "*",
     "generator": ("gi_frame", "gi_code"), "coroutine": ("cr_frame", "cr_code"), "async_generator": ("ag_frame", "ag_code"),
-    "generic_alias": ("mro",),
+    "generic_alias": ("mro",), "typing_alias": ("mro",),
 }
 CONFIGURED = {  # kind -> documented module-level configuration sets that may add names
     "function": ("UNSAFE_FUNCTION_ATTRIBUTES",), "method": ("UNSAFE_FUNCTION_ATTRIBUTES", "UNSAFE_METHOD_ATTRIBUTES"),
@@ -239,13 +239,59 @@ def sample_objects():
         tb = ex.__traceback__
     c = co()
     samples = {"function": f, "method": K().m, "type": str, "code": f.__code__, "traceback": tb, "frame": sys._getframe(),
-               "generator": g(), "coroutine": c, "async_generator": ag(), "generic_alias": dict[str, int], None: K()}
+               "generator": g(), "coroutine": c, "async_generator": ag(), "generic_alias": dict[str, int],
+               "typing_alias": __import__("typing").List[int], None: K()}
     return samples, c
+
+
+FORWARDS = z3.Function("forwards_attribute_lookups_to_a_class", Obj, z3.BoolSort())
+
+
+def alias_origin_spec(I_, st, args, kwargs, node):
+    """sandbox._alias_origin(obj): the class behind a forwarding alias, None for everything else"""
+    o = args[0]
+    out = []
+    for s_, b in I_.fork_bool(st, FORWARDS(to_term(o, "obj"))):
+        if b:
+            s_.assume(z3.Function("alias_origin", Obj, Obj)(to_term(o, "obj")) != host_const(None))  # a class, never None
+        out.append((s_, Sym(z3.Function("alias_origin", Obj, Obj)(to_term(o, "obj")), "obj", {"origin_class"}) if b else None))
+    return out
+
+
+def alias_origin_live(task, tier, seed):
+    """table: sandbox._alias_origin on live objects: the origin class exactly for the objects that forward attribute lookups
+    to a class (types.GenericAlias and the aliases of the typing module), None for classes, instances and other typing forms"""
+    import typing
+    import collections
+    aliases = [(list[int], list), (dict[str, int], dict), (set[int], set), (collections.deque[int], collections.deque), (typing.List[int], list),
+               (typing.List, list), (typing.Dict[str, int], dict), (typing.Dict, dict), (typing.Set[int], set), (typing.Deque[int], collections.deque),
+               (typing.Deque, collections.deque), (typing.Type[int], type), (typing.DefaultDict[str, int], collections.defaultdict), (type[int], type)]
+    others = [list, dict, [1], {}, 3, "x", None, typing.Any, typing.Union[int, str], typing.Optional[int], typing.TypeVar("T"), typing.Callable, len, object()]
+    bad = []
+    if not hasattr(S, "_alias_origin"):
+        for o, c in aliases:
+            if getattr(o, "mro", None) == c.mro and not S.is_internal_attribute(o, "mro"):
+                bad.append(f"{o!r} forwards `mro` to {c.__name__} but is not classified")
+    else:
+        for o, c in aliases:
+            if S._alias_origin(o) is not c:
+                bad.append(f"_alias_origin({o!r}) = {S._alias_origin(o)!r}, forwards to {c.__name__}")
+        for o in others:
+            forwards = not isinstance(o, type) and isinstance(getattr(o, "__origin__", None), type) and hasattr(o, "mro")
+            if (S._alias_origin(o) is not None) != forwards:
+                bad.append(f"_alias_origin({o!r}) = {S._alias_origin(o)!r}")
+    nm = "C17.alias_origin.live"
+    if bad:
+        return [Res(nm, "refuted", "table", 0, "; ".join(bad[:3]), "table", {"kind": "typing_alias", "attr": "mro"})]
+    return [Res(nm, "discharged", "table", 0, f"{len(aliases)} forwarding aliases, {len(others)} other objects", "table")]
 
 
 class IsInternal(VC):
     prop = "C17"
     target = "jinja2.sandbox:is_internal_attribute"
+
+    def configure(self, I):
+        I.specs["jinja2.sandbox:_alias_origin"] = alias_origin_spec
 
     def __init__(self):
         super().__init__("C17", "C17.is_internal_attribute")
@@ -253,6 +299,9 @@ class IsInternal(VC):
     def setup(self, I, st):
         self.obj, self.attr = sym("obj", "obj"), sym("attr", "str")
         self.pred = {k: isinst_fn(c)(self.obj.t) for k, c in KINDS}
+        # an alias object that forwards attribute lookups to a class (list[int], typing.List[int], typing.List): recognised by
+        # sandbox._alias_origin, whose own contract is the table C17.alias_origin.live
+        self.pred["generic_alias"] = FORWARDS(self.obj.t)
         # assumption: the nine builtin kinds have pairwise disjoint instance sets (final types / layout conflicts)
         ps = list(self.pred.values())
         st.assume(z3.AtMost(*ps, 1))
@@ -262,6 +311,8 @@ class IsInternal(VC):
         a = self.attr.t
         parts = [z3.PrefixOf(sv("__"), a)]
         for k, req in REQUIRED_INTERNAL.items():
+            if k not in self.pred:
+                continue
             if req == "*":
                 parts.append(self.pred[k])
             elif req:
@@ -352,7 +403,7 @@ def internal_live_types(task, tier, seed):
                 except Exception:
                     continue
                 n += 1
-                origin = getattr(o, "__origin__", None) if kind == "generic_alias" else None
+                origin = getattr(o, "__origin__", None) if kind in ("generic_alias", "typing_alias") else None
                 forwarded = origin is not None and S.is_internal_attribute(origin, name) and getattr(origin, name, None) == v
                 dangerous = (name.startswith("__") or forwarded or isinstance(v, (types.FrameType, types.CodeType, types.TracebackType))
                              or (kind == "type" and name == "mro") or spec_internal(kind, name, configured=False))
@@ -2239,18 +2290,57 @@ def parse_from_standin(task, tier, seed):
     return [Res("C17.parse_from.bounded", "bounded-ok", "bounded", 0, task.bound_text, "bounded")]
 
 
+def native_unbound_format(task, tier, seed):
+    """table (hunt i2/C17_1): str.format / str.format_map / Markup.format / Markup.format_map taken UNBOUND from the class (the class
+    str or Markup is in the context) and applied to a template-chosen format string are sandboxed like the bound forms: no private
+    attribute through a format field"""
+    v, d = replay_unbound_format({})
+    nm = "C17.format.unbound_methods_of_the_class"
+    if v:
+        return [Res(nm, "refuted", "table", 0, d, "table", {"family": "unbound_format"})]
+    return [Res(nm, "discharged", "table", 0, "8 templates x sync/async: every field lookup went through the sandbox", "table")]
+
+
+def replay_unbound_format(w=None):
+    class Probe:
+        _secret = "TRACER"
+    srcs = ["{{ str.format('{0._secret}', p) }}", "{{ str.format('{0.__class__.__init__.__globals__[__name__]}', p) }}", "{{ str.format_map('{p._secret}', {'p': p}) }}",
+            "{{ Markup.format(Markup('{0._secret}'), p) }}", "{{ Markup.format_map(Markup('{p._secret}'), {'p': p}) }}", "{% set f = str.format %}{{ f('{0._secret}', p) }}",
+            "{{ str['format']('{0._secret}', p) }}", "{{ (str|attr('format'))('{0._secret}', p) }}"]
+    probs = []
+    for kw in ({}, {"enable_async": True}):
+        env = S.SandboxedEnvironment(**kw)
+        for src in srcs:
+            try:
+                r = env.from_string(src).render(str=str, Markup=Markup, p=Probe())
+            except SecurityError:
+                continue
+            except Exception:
+                continue
+            if "TRACER" in r or "__main__" in r or "contracts" in r:
+                probs.append(f"{src} -> {r!r}")
+    return (bool(probs), "; ".join(probs[:3]) or "unbound format methods are sandboxed")
+
+
+class FamilyTable17(FnTask):
+    def finding_key(self, res):
+        return (res.witness or {}).get("family", "")
+
+
 def replay_undefined_raises(w):
     rs = [r for r in undefined_raises(None, "quick", 0) if r.status == "refuted"]
     return (bool(rs), "; ".join(f"{r.name}: {r.detail}" for r in rs) or "every use of the sandbox undefined raises SecurityError")
 
 
 TASKS = [IsInternal(), KeyedTable("C17", "C17.internal.live", internal_live_types, "table", replay_safe_live),
+         KeyedTable("C17", "C17.alias_origin.live", alias_origin_live, "table", replay_safe_live),
          SafeAttr(S.SandboxedEnvironment), SafeAttr(S.ImmutableSandboxedEnvironment),
          KeyedTable("C17", "C17.safe.live", safe_attr_end_to_end, "table", replay_safe_live),
          Gate("getattr"), Gate("getitem"), Gate("getitem", "nonstr"), Gate("getitem", "strsub"),
          UnsafeUndefined(), FnTask("C17", "C17.unsafe_undefined.raises", undefined_raises, "table", lambda w: replay_undefined_raises(w)),
          FormatterInit(S.SandboxedFormatter), FormatterInit(S.SandboxedEscapeFormatter), WrapStrFormat(), GetField(),
          FnTask("C17", "C17.format.mro", format_mro, "table", replay_format),
+         FamilyTable17("C17", "C17.format.unbound_methods_of_the_class", native_unbound_format, "table", replay_unbound_format),
          FnTask("C17", "C17.format.vformat_dependency", vformat_standin, "bounded", replay_format),
          AttrGetter(), MultiAttrGetter(1), MultiAttrGetter(2), DoAttr(), DoRound(),
          FnTask("C17", "C17.filters._prepare_attribute_parts", parts_standin, "bounded", replay_parts),
